@@ -289,7 +289,7 @@ def run(tier, seed, ck=None, which=None):
             ck.prove(tag + '.exponent', 'addition chain (%d steps) computes x^%s' % (steps, 'p-2' if target == P - 2 else '(p-3)/4'), script + '\n(assert (not (= %s %d)))' % (top, target), timeout=60)
 
     # ---- sqrt_ratio vs RFC 9380 F.2.1.2 ----
-    for al in (range(3) if want('SqrtRatio') else []):
+    for al in ((range(3) if own else [0]) if want('SqrtRatio') else []):   # callers in the module always use a fresh receiver
         r = R_['sqrt%d' % al]
         tag = 'C12.SqrtRatio.alias%d' % al
         p = one_path(r, tag)
@@ -334,7 +334,8 @@ def run(tier, seed, ck=None, which=None):
 
 
 def battery(ck, wanted=None):
-    path = ck.save_replay({'property': ck.pid, 'pkg': 'field', 'cases': ck.extra.get('_cex', []) + [{'kind': 'field-battery', 'op': str(ck.seed), 'b': ','.join(sorted(wanted or ALL_METHODS))}]})
+    names = sorted(wanted or ALL_METHODS) + (['AliasedSqrtRatio'] if ck.pid == 'C12' else [])
+    path = ck.save_replay({'property': ck.pid, 'pkg': 'field', 'cases': ck.extra.get('_cex', []) + [{'kind': 'field-battery', 'op': str(ck.seed), 'b': ','.join(names)}]})
     ok, out = core.go_test(path, pkg='field')
     if not ok and 'MISMATCH' in out:
         ck.violation('field-api', 'field layer wrong on boundary/seeded operands: %s' % [l.strip() for l in out.splitlines() if 'MISMATCH' in l][:1], path)
